@@ -11,8 +11,13 @@ MAP = "frg::hash_map"
 def _modulus(init):
     """init expr of an index: (hash % CAP) -> (hash node, CAP node) or None"""
     v = init.strip()
-    if v.kind == "BinaryOperator" and v.op == "%":
-        return v.children[0], v.children[1]
+    for _ in range(4):          # through a virtually inlined helper that returns hash % capacity, and result conversions
+        if v.kind == "BinaryOperator" and v.op == "%":
+            return v.children[0], v.children[1]
+        w = std_unwrap(v).strip()
+        if w.id == v.id:
+            break
+        v = w
     return None
 
 
